@@ -24,6 +24,7 @@ float, complex, bytes, …) are outside the model (the oracle evaluates them on 
 -/
 import FiddleModel.Lemmas.CodegenL
 import FiddleModel.Lemmas.Traverse
+import FiddleModel.Properties.C09
 
 namespace Fiddle
 
@@ -41,6 +42,17 @@ theorem C12_straight_line_roundtrip_partial (h : Heap) (wf : h.WellFormed)
   cases root with
   | atom t => simp [CExpr.eval]
   | ref j => simp [CExpr.eval, hl j (hr j rfl)]
+
+/-- The same for the program a generator really emits — only the objects reachable from the root,
+    children before parents (the memoized post-order table `rebuild` computes): for EVERY acyclic
+    configuration that program exists, executes, and what it builds is the input path for path:
+    same leaves, callables, tags at every path, and two paths lead to one object in the result
+    exactly when they do in the input (`imageOf` is one-to-one, `C08_rebuild_same_sharing`). -/
+theorem C12_reachable_program_roundtrip (h : Heap) (wf : h.WellFormed) (hd : ∀ o ∈ h, o.defaults = [])
+    (root : GVal) (hr : ∀ i, root = .ref i → i < h.length) :
+    ∃ r st, rebuild h root = .ok (r, st) ∧ (straightLine st.out r).run = some (r, st.out) ∧
+      ∀ p, followPath st.out r p = (followPath h root p).map (imageOf st.memo) :=
+  C09_roundtrip_total h wf hd root hr
 
 /-- Executing any expression never touches an existing object. -/
 theorem C12_execution_only_allocates (e : CExpr) (env : CEnv) (h : Heap) (v : GVal) (h' : Heap)
